@@ -61,7 +61,8 @@ def gen_history(rng, maxlen):
     n = rng.randint(1, maxlen)
     h = []
     for _ in range(n):
-        op = "save" if rng.random() < 0.12 else rng.choice([o for o in OPS if o != "save"] + ["getTimes", "readMeta", "getLonLat", "calibrated"])
+        op = rng.choice(["save", "saveFrom2"]) if rng.random() < 0.15 else rng.choice(
+            [o for o in OPS if not o.startswith("save")] + ["getTimes", "readMeta", "getLonLat", "calibrated"])
         h.append(op)
         if rng.random() < 0.2:
             h.append(op)          # repetition
@@ -162,7 +163,7 @@ def run_subject(ctx, subject, subjects, nhist, maxlen, drv_lines, pending):
         if hashlib.sha1(buf).hexdigest() != before:
             ctx.violation("%s: the caller's input buffer was modified by history %s" % (cfgname, h),
                           {"config": cfgname, "history": h}, cls="input-modified")
-        drv_lines.append("c12 %d %d %d %d %s" % (subject.cfg.cfg + (",".join(h),)))
+        drv_lines.append("c12 %d %d %d %d %s" % (subject.cfg.cfg + (",".join(acc.model_op(o) for o in h),)))
         pending.append((subject, h, outs, trace, fresh, after))
 
 
